@@ -52,6 +52,12 @@ def install(cfg):
         if tg == "vstr":
             raise Unsupported("base64.b64decode(str)")
         t = _bytes_arg(interp, s, "b64decode")
+        # structural inverse: decoding exactly a (padded) encoding gives back what was encoded
+        ts = simp(t)
+        for x, e in list(ctx.ghost.get("B64U_terms", [])):
+            if tid(simp(z3.Concat(e, S.pad_for(ctx, e)))) == tid(ts) or tid(simp(e)) == tid(ts):
+                ctx.axiom_log.add("b64decode(B64U(x) ++ padding to a multiple of 4) = x")
+                return interp.mk("vbytes", x)
         if validate:
             ok = S.PyB64Ok(t)
             dec = S.PyB64Dec(t)
@@ -204,6 +210,7 @@ def install(cfg):
         key = ("json", tid(t))
         if key not in ctx.ghost:
             ctx.ghost[key] = True
+            ctx.ghost.setdefault("JSON_terms", []).append((t, v, ensure_ascii))
             if ensure_ascii:
                 ctx.axiom(S.is_ascii(ctx, t), "json.dumps(ensure_ascii=True) is ASCII")
                 ctx.axiom(z3.And(S.JSONOk(t), S.JSONParse(t) == v), "json.loads(json.dumps(v)) = v on the JSON data model")
@@ -234,6 +241,11 @@ def install(cfg):
         if tg not in ("vstr", "vbytes"):
             interp.raise_(TypeError, "the JSON object must be str, bytes or bytearray")
         t = interp.text_term(s)
+        ts = simp(t)
+        for (jt, jv, asc) in list(ctx.ghost.get("JSON_terms", [])):
+            if tid(simp(jt)) == tid(ts) or tid(simp(S.UTF8(jt))) == tid(ts):
+                ctx.axiom_log.add("json.loads(json.dumps(v)) = v on the JSON data model")
+                return interp.from_term(jv)
         if not ctx.branch(S.JSONOk(t)):
             interp.raise_(json.JSONDecodeError, "Expecting value", "", 0)
         r = S.JSONParse(t)
@@ -270,6 +282,9 @@ def install(cfg):
     from cryptography.hazmat.primitives import serialization as _ser
     cfg.class_hooks[_ser.NoEncryption] = lambda interp, *a, **k: Foreign("noencryption")
     cfg.class_hooks[_ser.BestAvailableEncryption] = lambda interp, pw, *a, **k: Foreign("bestavailable", password=pw)
+
+    import collections as _collections
+    cfg.class_hooks[_collections.OrderedDict] = lambda interp, *a, **k: HDict(py={})
 
     @cfg.stub(copy.deepcopy)
     def deepcopy(interp, v, *a):
